@@ -46,7 +46,7 @@ impl Prop for C05 {
         "C05"
     }
     fn rule(&self) -> String {
-        "cases = C03-style conversations where every request (incl. the handshake response) carries a generated start sequence id (0 / 1 mostly, else uniform 0-255, with 254/255 favoured) and some programs produce 256-1100 response packets (hundreds of rows, or a 300-1000 column header); enumerated multi-fragment (>= 2^24-1 byte) requests so that the *last* request id matters. Oracle: greeting id 0; every reply's packets are last_request_id+1+i mod 256. Non-trivial = some response has > 255 packets, or some request id != 0, or a multi-fragment request.".into()
+        "cases = C03-style conversations where every request (incl. the handshake response) carries a generated start sequence id (0 / 1 mostly, else uniform 0-255, with 254/255 favoured) and some programs produce 256-1100 response packets (hundreds of rows, or a 300-1000 column header); enumerated multi-fragment (>= 2^24-1 byte) requests so that the *last* request id matters. Oracle: greeting id 0; every reply's packets are last_request_id+1+i mod 256. Non-trivial = some response has > 255 packets, or some request id != 0, or a multi-fragment request, or a response message of 2^24-1 bytes or more (enumerated: a 16 MiB cell between ordinary rows, request ids 0 and 250).".into()
     }
     fn assumptions(&self) -> Vec<String> {
         vec!["requests whose own fragments would wrap past id 255 are outside the domain (C20 covers them)".into()]
@@ -128,6 +128,27 @@ impl Prop for C05 {
                 v.push(Case { conv });
             }
         }
+        // responses that contain a message of 2^24-1 bytes or more: the continuation packets
+        // must keep counting (a text row: 1 + lenenc(3/4 bytes) + cell)
+        let cells: &[usize] = match tier {
+            Tier::Quick => &[MAX_PAYLOAD - 4, MAX_PAYLOAD + 100],
+            Tier::Thorough => &[MAX_PAYLOAD - 5, MAX_PAYLOAD - 4, MAX_PAYLOAD - 3, MAX_PAYLOAD + 100, 2 * MAX_PAYLOAD - 9, 2 * MAX_PAYLOAD + 7],
+        };
+        for (i, &len) in cells.iter().enumerate() {
+            for &seq in &[0u8, 250] {
+                let small = |k: i32| RowProg { cells: vec![Val::plain(Base::I32(k))], form: RowForm::WriteRow };
+                let big = RowProg { cells: vec![Val::plain(Base::BigBytes { seed: i as u32 + 11, len })], form: RowForm::Cols };
+                let prog = Program {
+                    steps: vec![
+                        Step::CompleteOne { rows: 1, id: 1 },
+                        Step::Set { cols: vec![ColSpec::simple("c", T_LONG_BLOB, 0)], rows: vec![small(1), big, small(2), small(3)], end: SetEnd::Finish },
+                    ],
+                };
+                let mut conv = Conversation::new(vec![Cmd::Query { text: Blob::text("big") }, Cmd::Ping], vec![Action::Result(prog)]);
+                conv.cmds[0].seq = seq;
+                v.push(Case { conv });
+            }
+        }
         v
     }
     fn exec(&self, case: &Case) -> Exec {
@@ -143,7 +164,11 @@ impl Prop for C05 {
         let multi = c.cmds.iter().any(|sc| frame_count(sc.cmd.payload_len_hint()) > 1);
         let nonzero = c.cmds.iter().any(|sc| sc.seq != 0);
         let long = d.replies.iter().any(|r| d.seqs_of(r).len() > 255);
-        ex.nontrivial = multi || nonzero || long;
+        let big_response = d.phys.iter().any(|p| p.len == MAX_PAYLOAD);
+        if big_response {
+            ex.class("response-message>=2^24-1");
+        }
+        ex.nontrivial = multi || nonzero || long || big_response;
         if multi {
             ex.class("multi-fragment-request");
         }
